@@ -312,6 +312,15 @@ lemma rate_of_bounds (x rate : ℝ) (hr : 0 < rate)
   have q2 : rate * Real.pi ≤ rate * 3.1415926536 := mul_le_mul_of_nonneg_left p2.le hr.le
   rw [abs_le]; constructor <;> nlinarith
 
+/-- amplitude of the first term of series 0 of a generated table -/
+lemma lead0_scaled (tbl : List (List Term3)) (a b c : Int) (h : (tbl.getD 0 []).head? = some (a, b, c)) :
+    (((vsopOfScaled tbl).getD 0 []).headD (0, 0, 0)).1 = (a : ℝ) / 10 ^ expA := by
+  match tbl, h with
+  | (x :: s0) :: rest, h =>
+    have hx : x = (a, b, c) := by simpa using h
+    subst hx
+    simp [vsopOfScaled, termOfScaled, numOfScaled]
+
 /-- amplitude of the first term of series 2 of a generated table -/
 lemma lead2_scaled (tbl : List (List Term3)) (a b c : Int) (h : (tbl.getD 2 []).head? = some (a, b, c)) :
     (((vsopOfScaled tbl).getD 2 []).headD (0, 0, 0)).1 = (a : ℝ) / 10 ^ expA := by
